@@ -507,3 +507,296 @@ def expand_module_aliases(repo):
             _annotate(fn, fn._parent)
             n += 1
     return n
+
+
+# ------------------------------------------------------------------------------------------------
+# attribute aliases:  `counter = self.counter` ... reads of `counter` ... `self.counter = counter + 1`
+def _self_attr(node):
+    return isinstance(node, ast.Attribute) and isinstance(node.value, ast.Name) and node.value.id == "self"
+
+
+class _Kills:
+    """what a statement list can invalidate: local names rebound, attributes of self rebound / touched (item store, mutating call), methods of self
+    called (by name, so that their transitive write sets can be consulted) and calls whose effect on self is unknown"""
+
+    MUT = {"append", "insert", "pop", "extend", "clear", "update", "remove", "sort", "reverse", "setdefault", "popitem", "add_interpolant", "remove_interpolant"}
+
+    def __init__(self, stmts):
+        self.names, self.rebound, self.touched, self.methods, self.opaque = set(), set(), set(), set(), False
+        for st in stmts if isinstance(stmts, list) else [stmts]:
+            for n in ast.walk(st):
+                if isinstance(n, ast.Name) and isinstance(n.ctx, (ast.Store, ast.Del)):
+                    self.names.add(n.id)
+                elif isinstance(n, ast.arg):
+                    self.names.add(n.arg)
+                elif _self_attr(n) and isinstance(n.ctx, (ast.Store, ast.Del)):
+                    self.rebound.add(n.attr)
+                    self.touched.add(n.attr)
+                elif isinstance(n, (ast.Subscript, ast.Attribute)) and isinstance(n.ctx, (ast.Store, ast.Del)):
+                    base = n.value
+                    while isinstance(base, (ast.Subscript, ast.Attribute)) and not _self_attr(base):
+                        base = base.value
+                    if _self_attr(base):
+                        self.touched.add(base.attr)
+                elif isinstance(n, ast.Call):
+                    f = n.func
+                    if _self_attr(f):
+                        self.methods.add(f.attr)
+                    elif isinstance(f, ast.Attribute) and _self_attr(f.value) and f.attr in self.MUT:
+                        self.touched.add(f.value.attr)
+                    elif (isinstance(f, ast.Name) and f.id == "self") or any(isinstance(a_, ast.Name) and a_.id == "self" for a_ in n.args) or \
+                            any(isinstance(k.value, ast.Name) and k.value.id == "self" for k in n.keywords):
+                        self.opaque = True
+                elif isinstance(n, (ast.Yield, ast.YieldFrom, ast.Await)):
+                    self.opaque = True
+
+
+def _alias_attrs(expr):
+    return {n.attr for n in ast.walk(expr) if _self_attr(n)}
+
+
+def _apply_kills(active, k, props, writes_of=None):
+    rebound, touched, opaque = set(k.rebound), set(k.touched), k.opaque
+    for m in k.methods:
+        w = writes_of(m) if writes_of is not None else None
+        if w is None:
+            opaque = True
+        else:
+            rebound |= w
+            touched |= w
+    for nm in list(active):
+        e = active[nm]
+        attrs = _alias_attrs(e)
+        simple = _self_attr(e)
+        dead = nm in k.names or opaque or (attrs & rebound) or (not simple and attrs & touched) or (attrs & props and (rebound or touched))
+        if dead:
+            del active[nm]
+
+
+def _pure_alias_value(v):
+    """self.a  |  self.a[<index built from self attributes, integer literals, + and ->]"""
+    if _self_attr(v):
+        return True
+    if isinstance(v, ast.Subscript) and _self_attr(v.value) and isinstance(v.ctx, ast.Load):
+        def idx_ok(e):
+            if isinstance(e, ast.Constant) and isinstance(e.value, int):
+                return True
+            if _self_attr(e):
+                return True
+            if isinstance(e, ast.BinOp) and isinstance(e.op, (ast.Add, ast.Sub)):
+                return idx_ok(e.left) and idx_ok(e.right)
+            if isinstance(e, ast.UnaryOp) and isinstance(e.op, ast.USub):
+                return idx_ok(e.operand)
+            return False
+        return idx_ok(v.slice)
+    return False
+
+
+def expand_attr_aliases_in(fn, props=frozenset(), writes_of=None):
+    """Rewrites reads of a local that is, at that point, provably the value of `self.<attr>` (bound by `name = self.<attr>`, the attribute not rebound
+    since, no method of self called since, the name not rebound since) into `self.<attr>`.  Flow-sensitive over the structured statements: both
+    branches of an `if` must agree, a loop body's own kills apply from the loop head on, `try` statements kill conservatively.  Returns the number of
+    reads rewritten.  An alias assignment whose name is no longer read anywhere is dropped."""
+    nested_reads = set()
+    for sub in ast.walk(fn):
+        if isinstance(sub, (ast.FunctionDef, ast.Lambda, ast.AsyncFunctionDef)) and sub is not fn:
+            for x in ast.walk(sub):
+                if isinstance(x, ast.Name):
+                    nested_reads.add(x.id)
+    params = {a.arg for a in fn.args.posonlyargs + fn.args.args + fn.args.kwonlyargs}
+    count = [0]
+
+    class R(ast.NodeTransformer):
+        def __init__(self, active):
+            self.active = active
+
+        def visit_Name(self, n):
+            if isinstance(n.ctx, ast.Load) and n.id in self.active:
+                new = _clone(self.active[n.id])
+                for sub in ast.walk(new):
+                    ast.copy_location(sub, n)
+                count[0] += 1
+                return new
+            return n
+
+        def visit_FunctionDef(self, n):
+            return n
+
+        def visit_Lambda(self, n):
+            return n
+
+    def rd(node, active):
+        return R(active).visit(node) if active and node is not None else node
+
+    def block(stmts, active):
+        out = []
+        for st in stmts:
+            if isinstance(st, (ast.FunctionDef, ast.ClassDef, ast.AsyncFunctionDef)):
+                out.append(st)
+                continue
+            if isinstance(st, ast.If):
+                st.test = rd(st.test, active)
+                _apply_kills(active, _Kills([st.test]), props, writes_of)
+                a1, a2 = dict(active), dict(active)
+                st.body = block(st.body, a1)
+                st.orelse = block(st.orelse, a2)
+                for nm in list(active):
+                    if not (nm in a1 and nm in a2 and ast.dump(a1[nm]) == ast.dump(a2[nm]) == ast.dump(active[nm])):
+                        del active[nm]
+                for nm in a1:
+                    if nm not in active and nm in a2 and ast.dump(a1[nm]) == ast.dump(a2[nm]):
+                        active[nm] = a1[nm]
+            elif isinstance(st, (ast.For, ast.While)):
+                k = _Kills(st.body + st.orelse + ([st.target] if isinstance(st, ast.For) else []) + ([st.test] if isinstance(st, ast.While) else []))
+                if isinstance(st, ast.For):
+                    st.iter = rd(st.iter, active)
+                    _apply_kills(active, _Kills([st.iter]), props, writes_of)
+                _apply_kills(active, k, props, writes_of)
+                if isinstance(st, ast.While):
+                    st.test = rd(st.test, active)
+                inner = dict(active)
+                st.body = block(st.body, inner)
+                st.orelse = block(st.orelse, dict(active))
+            elif isinstance(st, (ast.Try, ast.With)) or type(st).__name__ in ("TryStar", "Match", "AsyncWith", "AsyncFor"):
+                _apply_kills(active, _Kills([st]), props, writes_of)
+                for field in ("body", "orelse", "finalbody"):
+                    if isinstance(getattr(st, field, None), list):
+                        setattr(st, field, block(getattr(st, field), dict(active)))
+                for h in getattr(st, "handlers", []) or []:
+                    h.body = block(h.body, dict(active))
+                if isinstance(st, ast.With):
+                    for it in st.items:
+                        it.context_expr = rd(it.context_expr, active)
+            elif isinstance(st, ast.Assign):
+                st.value = rd(st.value, active)
+                for t in st.targets:         # subscripts / attribute bases inside targets are reads
+                    for f_ in ("value", "slice"):
+                        if isinstance(t, (ast.Subscript, ast.Attribute)) and hasattr(t, f_):
+                            setattr(t, f_, rd(getattr(t, f_), active))
+                _apply_kills(active, _Kills([st]), props, writes_of)
+                if len(st.targets) == 1 and isinstance(st.targets[0], ast.Name) and _pure_alias_value(st.value):
+                    nm = st.targets[0].id
+                    if nm not in nested_reads and nm not in params and nm != "self":
+                        active[nm] = st.value
+            elif isinstance(st, ast.AugAssign):
+                st.value = rd(st.value, active)
+                t = st.target
+                for f_ in ("value", "slice"):
+                    if isinstance(t, (ast.Subscript, ast.Attribute)) and hasattr(t, f_):
+                        setattr(t, f_, rd(getattr(t, f_), active))
+                _apply_kills(active, _Kills([st]), props, writes_of)
+            else:
+                new = rd(st, active)
+                _apply_kills(active, _Kills([new]), props, writes_of)
+                st = new
+            out.append(st)
+        return out
+
+    fn.body = block(fn.body, {})
+    if count[0]:
+        # drop alias assignments whose name is never read any more
+        loads = {x.id for x in ast.walk(fn) if isinstance(x, ast.Name) and isinstance(x.ctx, ast.Load)}
+
+        def prune(stmts):
+            keep = []
+            for st in stmts:
+                if isinstance(st, ast.Assign) and len(st.targets) == 1 and isinstance(st.targets[0], ast.Name) and _pure_alias_value(st.value) and st.targets[0].id not in loads:
+                    continue
+                for field in ("body", "orelse", "finalbody"):
+                    if isinstance(getattr(st, field, None), list) and getattr(st, field) and not isinstance(st, (ast.FunctionDef, ast.ClassDef)):
+                        setattr(st, field, prune(getattr(st, field)) or [ast.copy_location(ast.Pass(), st)])
+                for h in getattr(st, "handlers", []) or []:
+                    h.body = prune(h.body) or [ast.copy_location(ast.Pass(), h)]
+                keep.append(st)
+            return keep
+        fn.body = prune(fn.body) or [ast.copy_location(ast.Pass(), fn)]
+    return count[0]
+
+
+def normalise_counter_updates(fn):
+    """`self.a = self.a + k` / `self.a = self.a - k` (k an integer literal) is the augmented assignment `self.a += k` (integers: no in-place semantics)"""
+    n = 0
+    for st in list(ast.walk(fn)):
+        for field in ("body", "orelse", "finalbody"):
+            body = getattr(st, field, None)
+            if not isinstance(body, list):
+                continue
+            for i, s in enumerate(body):
+                if isinstance(s, ast.Assign) and len(s.targets) == 1 and _self_attr(s.targets[0]) and isinstance(s.value, ast.BinOp) and \
+                        isinstance(s.value.op, (ast.Add, ast.Sub)) and _self_attr(s.value.left) and s.value.left.attr == s.targets[0].attr and \
+                        isinstance(s.value.right, ast.Constant) and isinstance(s.value.right.value, int) and not isinstance(s.value.right.value, bool):
+                    body[i] = ast.copy_location(ast.AugAssign(target=s.targets[0], op=s.value.op, value=s.value.right), s)
+                    n += 1
+    return n
+
+
+def _negate(c):
+    """logical negation with De Morgan pushed through and/or; comparisons are wrapped, never flipped (NaN)"""
+    if isinstance(c, ast.UnaryOp) and isinstance(c.op, ast.Not):
+        return c.operand
+    if isinstance(c, ast.BoolOp):
+        return ast.copy_location(ast.BoolOp(op=ast.And() if isinstance(c.op, ast.Or) else ast.Or(), values=[_negate(v) for v in c.values]), c)
+    return ast.copy_location(ast.UnaryOp(op=ast.Not(), operand=c), c)
+
+
+def normalise_while_true(fn):
+    """`while True:` whose body starts with `if C: break` (no else) is `while not C:` followed by the rest of the body"""
+    n = 0
+    for w in [x for x in ast.walk(fn) if isinstance(x, ast.While)]:
+        if isinstance(w.test, ast.Constant) and w.test.value is True and w.body and isinstance(w.body[0], ast.If) and not w.body[0].orelse and \
+                len(w.body[0].body) == 1 and isinstance(w.body[0].body[0], ast.Break) and len(w.body) > 1 and not w.orelse:
+            w.test = _negate(w.body[0].test)
+            w.body = w.body[1:]
+            n += 1
+    return n
+
+
+def _writes_of_factory(repo, rel, cdef, cache):
+    """method name -> set of attributes of self its transitive closure may write (None when the callee is not a method of the class)"""
+    key = (rel, cdef.name)
+    if key not in cache:
+        try:
+            from .access import ClassModel
+            cache[key] = ClassModel(repo, rel, getattr(cdef, "_qualname", cdef.name))
+        except Exception:
+            cache[key] = None
+    cm = cache[key]
+
+    def writes_of(name):
+        if cm is None or name not in cm.methods:
+            return None
+        out = set()
+        for path in cm.closure(name):
+            if path.endswith("()"):
+                return None         # calls an object held in an attribute: unknown effect
+            out.add(path.split(".")[0])
+        return out
+    return writes_of
+
+
+def expand_attr_aliases(repo):
+    """apply the three spelling-level normalisations above to every function of the package; returns (reads rewritten, counter updates, loop heads)"""
+    tot = [0, 0, 0]
+    cm_cache = {}
+    for rel, m in repo.modules.items():
+        classes = [c for c in ast.walk(m.tree) if isinstance(c, ast.ClassDef)]
+        props_of = {}
+        for c in classes:
+            props_of[id(c)] = frozenset(f.name for f in c.body if isinstance(f, ast.FunctionDef) and any(dotted(d) == "property" for d in f.decorator_list))
+        for q, fn in list(m.index.items()):
+            if not isinstance(fn, ast.FunctionDef):
+                continue
+            parent = getattr(fn, "_parent", None)
+            props = props_of.get(id(parent), frozenset())
+            writes_of = None
+            if isinstance(parent, ast.ClassDef):
+                writes_of = _writes_of_factory(repo, rel, parent, cm_cache)
+            a = expand_attr_aliases_in(fn, props, writes_of)
+            b = normalise_counter_updates(fn)
+            c = normalise_while_true(fn)
+            if a or b or c:
+                _annotate(fn, parent)
+                tot[0] += a
+                tot[1] += b
+                tot[2] += c
+    return tuple(tot)
